@@ -35,6 +35,7 @@ RULE += ' 1/40 of the cases run the cascade 1001 more times before the compariso
 RULE += ' Exceptions raised by gates, processors and handlers may carry no message at all or a falsy one.'
 RULE += " Round 7: `other` = a second cascade (opposite or same failure mode, or the MAPK preset; idle or run once) constructed in the same process after the pipeline under test and before its run."
 RULE += " Round 8: `late_gate` - stages are constructed without checkpoint and error handler, which are then assigned to the stage's public fields."
+RULE += " Round 10: every second stage is constructed positionally in the documented field order (five fields up to the error handler, or all seven)."
 EXHAUSTIVE_NOTE = {"quick": "all pipelines of 1..2 stages over 48 stage behaviours x halt on/off (2*(48+2304) = 4704), complete",
                    "thorough": "all pipelines of 1..3 stages over 48 stage behaviours x halt on/off (2*(48+2304+110592) = 225888), complete"}
 
@@ -186,6 +187,11 @@ def _build(case, log):
             stg.checkpoint = gate
             stg.on_error = None if spec["err"] == "none" else err
             return stg
+        if i % 2 == 1:
+            # every second stage is built positionally, in the documented field order (name, processor, amplification, checkpoint, on_error, timeout_seconds, required)
+            if i % 4 == 1 and spec["required"]:
+                return CascadeStage(_stage_name(case, i), proc, spec["amp"], gate, None if spec["err"] == "none" else err)
+            return CascadeStage(_stage_name(case, i), proc, spec["amp"], gate, None if spec["err"] == "none" else err, 30.0, spec["required"])
         return CascadeStage(name=_stage_name(case, i), processor=proc, amplification=spec["amp"],
                             checkpoint=gate,
                             on_error=None if spec["err"] == "none" else err, required=spec["required"])
